@@ -56,7 +56,7 @@ def run_task(task):
         mod, cls = spec.split(':')
         unit = getattr(importlib.import_module(mod), cls)()
         unit.shard = shard
-        out.update(name=unit.name, target=unit.target, kind=unit.kind, prop=unit.prop)
+        out.update(name=unit.name, target=unit.target, kind=unit.kind, prop=unit.prop, size_bound=getattr(unit, 'size_bound', None))
         res = run_unit_symbolic(unit, mode, deadline=time.time() + budget)
         for o in res.obligations:
             out['obligations'].append(dict(
@@ -205,6 +205,7 @@ def main(argv=None):
     solver_secs = 0.0
     paths = 0
     samples = []
+    symbolic_bounded = {}
     for r in results:
         if r['crash']:
             continue
@@ -219,6 +220,18 @@ def main(argv=None):
         if r['nonvacuous'] == 0 and not r['unsupported']:
             vacuous_units.append(r)
         for o in r['obligations']:
+            if r.get('size_bound'):
+                # a symbolic unit whose inputs carry a stated size bound: a bounded stand-in - reported under `bounded`, not counted
+                # as an obligation / as proved; a failure is still a finding
+                be_ = symbolic_bounded.setdefault("%s (symbolic, bounded: %s) [%s]" % (r['name'], r['size_bound'], r['mode']),
+                                                  dict(evaluations=0, failures=0, bound=r['size_bound']))
+                be_['evaluations'] += 1
+                if o['status'] == 'failed':
+                    be_['failures'] += 1
+                    failed.setdefault((o['name'], r['mode']), []).append((r, o))
+                elif o['status'] != 'discharged':
+                    unknowns.append((r, o))
+                continue
             n_ob += 1
             b = by_backend.setdefault(o['solver'], dict(count=0, secs=0.0))
             b['count'] += 1
@@ -232,7 +245,7 @@ def main(argv=None):
                 failed.setdefault((o['name'], r['mode']), []).append((r, o))
             else:
                 unknowns.append((r, o))
-    bounded_extra = {}
+    bounded_extra = dict(symbolic_bounded)
     for o in extra_obs:
         if o.get('kind') == 'B':
             # bounded stand-in: never counted as an obligation / as proved
